@@ -22,6 +22,13 @@ structure HeaderOk (p : Params) : Prop where
   v_trim : trim (p.version ++ [NL]) = p.version
   h_trim : ∀ g, trim (p.hash g ++ [NL]) = p.hash g
 
+/-- the temporary file, if one is used, is opened with truncation (true of `fs::File::create`);
+    without it the theorems about complete builds are false, see `stale_tmp_tail_kept` -/
+def Variant.Sound (v : Variant) : Prop := v.tmpRename = true → v.truncTmp = true
+
+theorem Variant.sound_of_not_tmp {v : Variant} (h : v.tmpRename = false) : v.Sound := by
+  intro h'; rw [h] at h'; cases h'
+
 /-- hash injectivity (explicit assumption: SHA3-256 collisions are not modelled) -/
 def HashInj (p : Params) : Prop := ∀ g g', p.hash g = p.hash g' → g = g'
 
@@ -201,10 +208,6 @@ theorem applyActs_pre_rs (st : St) (cfg : Cfg) (i : Nat) (reps : List Bytes) :
   rw [applyActs_cons, applyActs_frame _ _ _ (reportActs_touches cfg i reps _ (by simp))]
   simp [applyAct]
 
-theorem applyActs_writeOut_clock (st : St) (dst : Path) (p : Params) (g body : Bytes) :
-    (applyActs st (writeOut dst p g body)).clock = st.clock + 1 := by
-  simp [writeOut, applyActs, applyAct]
-
 theorem applyActs_singleton (st : St) (a : FsAct) : applyActs st [a] = applyAct st a := rfl
 
 theorem applyAct_rename_fs_dst (st : St) (s d : Path) (h : d ≠ s) :
@@ -227,7 +230,7 @@ theorem loadFail_fs (v : Variant) (st : St) (i : Nat) :
     simp only [applyActs, List.foldl_cons, List.foldl_nil, applyAct, ↓reduceIte]
     exact setFs_other _ _ (by simp [hj])
 
-theorem build_res (v : Variant) (p : Params) (cfg : Cfg) (st : St) (i : Nat) (g : Bytes)
+theorem build_res (hs : v.Sound) (p : Params) (cfg : Cfg) (st : St) (i : Nat) (g : Bytes)
     (hg : st.gr i = some g) : BuildRes v p cfg st i g (build v p cfg st i) := by
   unfold build plan
   simp only [hg]
@@ -278,7 +281,7 @@ theorem build_res (v : Variant) (p : Params) (cfg : Cfg) (st : St) (i : Nat) (g 
               applyActs_frame _ _ _ (writeOut_touches _ p g body (.rs j) (by simp [hj])),
               applyActs_frame _ _ _ (pre_not_touch_rs cfg i j _ hj)]
         | true =>
-          simp only [↓reduceIte]
+          simp only [↓reduceIte, hs ht]
           refine .built body (applyActs st (FsAct.remove (.rs i) :: reportActs cfg i (p.gen g).reports)).clock
             _ hn hu hr ?_ (applyActs_clock_le _ _) ?_ ?_ (applyActs_gr _ _)
           · rw [applyActs_append, applyActs_append, applyActs_singleton,
@@ -344,7 +347,7 @@ theorem build_missing (v : Variant) (p : Params) (cfg : Cfg) (st : St) (i : Nat)
 variable {Good : Bytes → Bytes → Prop}
 
 theorem build_inv (hp : HeaderOk p) (hinj : HashInj p) (hgs : GoodSpec p Good)
-    (v : Variant) (cfg : Cfg) (st : St) (i : Nat) (hinv : Inv Good v p st) :
+    (hs : v.Sound) (cfg : Cfg) (st : St) (i : Nat) (hinv : Inv Good v p st) :
     Inv Good v p (build v p cfg st i).2 := by
   cases hg : st.gr i with
   | none =>
@@ -357,7 +360,7 @@ theorem build_inv (hp : HeaderOk p) (hinj : HashInj p) (hgs : GoodSpec p Good)
       · rw [e] at hf; cases hf
     · rw [hframe j hj] at hf; exact hinv j f hf
   | some g =>
-    have hres := build_res v p cfg st i g hg
+    have hres := build_res hs p cfg st i g hg
     generalize build v p cfg st i = r at hres
     cases hres with
     | headerErr e _ _ => exact hinv
@@ -386,14 +389,14 @@ theorem build_inv (hp : HeaderOk p) (hinj : HashInj p) (hgs : GoodSpec p Good)
       · rw [hframe j hj] at hf; exact hinv j f hf
 
 theorem buildDir_inv (hp : HeaderOk p) (hinj : HashInj p) (hgs : GoodSpec p Good)
-    (v : Variant) (cfg : Cfg) (ids : List Nat) (st : St) (hinv : Inv Good v p st) :
+    (hs : v.Sound) (cfg : Cfg) (ids : List Nat) (st : St) (hinv : Inv Good v p st) :
     Inv Good v p (buildDir v p cfg st ids).2 := by
   induction ids generalizing st with
   | nil => exact hinv
   | cons i ids ih =>
     simp only [buildDir]
     split
-    · exact ih _ (build_inv hp hinj hgs v cfg st i hinv)
-    · exact build_inv hp hinj hgs v cfg st i hinv
+    · exact ih _ (build_inv hp hinj hgs hs cfg st i hinv)
+    · exact build_inv hp hinj hgs hs cfg st i hinv
 
 end LalrpopModel.Build
